@@ -13,9 +13,9 @@
    the set F of floating-point numbers; results of -, *, / are in F and 0 + x = x + 0 = x - 0 = x for x in F (true of
    every correctly rounded arithmetic; discharged for 53-bit round-to-nearest-even in Proofs/Round2PolyB.v).
    (c) polydiv_rounded_identity_float: the first bound for the PRIMITIVE-FLOAT instance itself ([polydiv] at AF, IEEE
-   binary64, u = 2^-53), through Flocq: whenever every state of the run is finite and no quotient r_top / v_top and no
-   product c * v_j of the run underflows ([pd_ok], a condition on computable values of the run).
-   Unproved remainder: (a), (b) assume the standard model; (c) says nothing when a kept value of the run overflows or a
+   binary64, u = 2^-53), through Flocq: whenever the answer (q, r) is finite and no quotient r_top / v_top and no
+   product c * v_j of the run underflows ([pd_nounder], a condition on computable values of the run).
+   Unproved remainder: (a), (b) assume the standard model; (c) says nothing when the answer is not finite or a
    quotient / product falls into the subnormal range (the absolute error of gradual underflow is not analysed).
    ====================================================================================================== *)
 From Coq Require Import List Reals Lra Lia Floats.
@@ -131,8 +131,8 @@ Qed.
 
 (* the same for the primitive floats themselves (IEEE binary64, u64 = 2^-53, g64 n = gam u64 n), through Flocq *)
 Theorem polydiv_rounded_identity_float : forall (a v q r : list PrimFloat.float),
-  polydiv (A := AF) a v = Ok (inl (q, r)) -> FR (last v 0%float) <> 0%R ->
-  pd_ok (S POLYDIV_MAX) [] a v ->
+  polydiv (A := AF) a v = Ok (inl (q, r)) -> Forall ffinite q -> Forall ffinite r -> FR (last v 0%float) <> 0%R ->
+  pd_nounder (S POLYDIV_MAX) [] a v ->
   (INR (2 * Nat.min (length a + 1 - length v) (length v)) * u64 < 1)%R ->
   forall k : nat,
   (Rabs (FR (nth k a 0%float) - Rsum (S k) (fun i => FR (nth i q 0%float) * FR (nth (k - i) v 0%float))
@@ -140,10 +140,10 @@ Theorem polydiv_rounded_identity_float : forall (a v q r : list PrimFloat.float)
      <= g64 (2 * Nat.min (length a + 1 - length v) (length v))
         * (Rabs (FR (nth k a 0%float))
            + Rsum (S k) (fun i => Rabs (FR (nth i q 0%float)) * Rabs (FR (nth (k - i) v 0%float)))))%R.
-Proof. intros a v q r E Hv P Hn. exact (polydiv_rounded_identity_float_lemma a v q r E Hv P Hn). Qed.
+Proof. intros a v q r E Hq Hr Hv P Hn. exact (polydiv_rounded_identity_float_lemma a v q r E Hq Hr Hv P Hn). Qed.
 Check polydiv_rounded_identity_float : forall (a v q r : list PrimFloat.float),
-  polydiv (A := AF) a v = Ok (inl (q, r)) -> FR (last v 0%float) <> 0%R ->
-  pd_ok (S POLYDIV_MAX) [] a v ->
+  polydiv (A := AF) a v = Ok (inl (q, r)) -> Forall ffinite q -> Forall ffinite r -> FR (last v 0%float) <> 0%R ->
+  pd_nounder (S POLYDIV_MAX) [] a v ->
   (INR (2 * Nat.min (length a + 1 - length v) (length v)) * u64 < 1)%R ->
   forall k : nat,
   (Rabs (FR (nth k a 0%float) - Rsum (S k) (fun i => FR (nth i q 0%float) * FR (nth (k - i) v 0%float))
@@ -155,10 +155,11 @@ Print Assumptions polydiv_rounded_identity_float.
 Print Assumptions polydiv_zero_divisor_lemma.   (* closed; ends the listing of float primitives above for the driver's parser *)
 (* (1 + x + x^2) / (1 + 3x) at binary64: two passes, quotient coefficients fl(fl(1 - fl(1/3)) / 3) and fl(1/3) < 1/3 *)
 Example polydiv_rounded_identity_float_nonvacuous :
-  polydiv (A := AF) exf_a exf_v = Ok (inl (exf_q, exf_r)) /\ FR (last exf_v 0%float) <> 0%R /\
-  pd_ok (S POLYDIV_MAX) [] exf_a exf_v /\
+  polydiv (A := AF) exf_a exf_v = Ok (inl (exf_q, exf_r)) /\ Forall ffinite exf_q /\ Forall ffinite exf_r /\
+  FR (last exf_v 0%float) <> 0%R /\ pd_nounder (S POLYDIV_MAX) [] exf_a exf_v /\
   (INR (2 * Nat.min (length exf_a + 1 - length exf_v) (length exf_v)) * u64 < 1)%R /\
   (FR (nth 1 exf_q 0%float) < 1 / 3)%R.
 Proof.
-  split; [exact exf_polydiv|]. split; [exact exf_lead|]. split; [exact exf_pd_ok|]. split; [exact exf_size|exact exf_q_inexact].
+  split; [exact exf_polydiv|]. split; [exact (proj1 exf_fin)|]. split; [exact (proj2 exf_fin)|].
+  split; [exact exf_lead|]. split; [exact exf_nounder|]. split; [exact exf_size|exact exf_q_inexact].
 Qed.
